@@ -9,4 +9,9 @@ if [ ! -f $B/build.ninja ]; then
   cmake -G Ninja -S /repo -B $B -DCMAKE_BUILD_TYPE=RelWithDebInfo "-DCMAKE_CXX_FLAGS=-Wno-error -DKAUZLARI_SYMPLER_VERIF" > /dev/null
 fi
 cmake --build $B -j"$(nproc)" --target sympler 2>&1 | tail -2
+B2=.work/build-omp
+if [ ! -f $B2/build.ninja ]; then
+  cmake -G Ninja -S /repo -B $B2 -DCMAKE_BUILD_TYPE=RelWithDebInfo "-DCMAKE_CXX_FLAGS=-Wno-error -fopenmp -DKAUZLARI_SYMPLER_VERIF" > /dev/null
+fi
+cmake --build $B2 -j"$(nproc)" --target sympler 2>&1 | tail -2
 echo "setup done"
